@@ -17,7 +17,7 @@ import random
 
 import numpy as np
 
-from .. import core, geo, motlutil
+from .. import argguard, core, geo, motlutil
 
 FIELDS = motlutil.FIELDS
 INHERIT = ["score", "geom1", "tomo_id", "object_id", "subtomo_mean", "geom3", "geom4", "class"]
@@ -67,13 +67,20 @@ def run_exact(ctx, rec, variant):
         cols["geom2"][k], cols["geom5"][k] = 9.0, 99.0
         for f, v in inherit_values(p["tag"]).items():
             cols[f][k] = v
-    motl = cm.Motl(motlutil.vary_index(motlutil.df_from_cols(cols), variant // 5))
-    off = [v / U for v in case["off"]]
-    arg = off if variant % 2 else np.array(off)
+    motl = cm.Motl(motlutil.repeat_labels(
+        motlutil.vary_columns(motlutil.vary_index(motlutil.df_from_cols(cols), variant // 5), variant // 3), variant // 2))
+    # (the float32 form is left to the real-valued layer: single-precision input is outside the domain on which the
+    # arithmetic is exact)
+    arg = shift_arg([v / U for v in case["off"]], variant if variant % 7 != 5 else 2)
+    guard = argguard.Guard(xyz_shift=arg, particle_list=motl.df)
     res, err = core.call_guarded(motl.split_in_asymmetric_subunits, sym_arg(n, variant % 5), arg)
     ctx.ran(rcase)
     if err is not None:
         ctx.fail("call_raises", "n=%d: %s" % (n, err), rcase, sig)
+        return
+    why = guard.changed()
+    if why:
+        ctx.fail("C10_ArgumentsUntouched", "n=%d: the call changed its argument: %s" % (n, why), rcase, sig)
         return
     df = res.df
     if sorted(map(str, df.columns)) != sorted(FIELDS) or len(df.columns) != 20:
@@ -140,14 +147,58 @@ def gen_float_case(rng, idx, n, spelling, npart):
         off = [float(rng.randint(-30, 30)), float(rng.randint(-30, 30)), 0.0]
     else:
         off = [round(rng.uniform(-30, 30), 3) for _ in range(3)]
-    return {"kind": "float", "id": idx, "n": n, "spelling": spelling, "parts": parts, "off": off}
+    r2 = rng.random()
+    if r2 < 0.05:
+        off = [1e-9, -1e-9, 0.0]                                   # tiny
+    elif r2 < 0.1:
+        off = [float(rng.randint(-2000, 2000)), float(rng.randint(-2000, 2000)), float(rng.randint(-2000, 2000))]   # huge
+    elif r2 < 0.3:
+        off = [rng.randint(-240, 240) / 8.0 for _ in range(3)]     # dyadic: exactly representable as float32, too
+    case = {"kind": "float", "id": idx, "n": n, "spelling": spelling, "parts": parts, "off": off}
+    if rng.random() < 0.35:
+        # a second call on the same list with the same offset object and another order of symmetry
+        case["n2"] = rng.choice([k for k in (1, 2, 3, 5, 7, 8, 12) if k != n])
+    return case
+
+
+def shift_arg(off, k):
+    """The subunit offset in one of the accepted forms: list, tuple, ndarray (float64, read-only, non-contiguous view,
+    float32 / int64 where the values are exactly representable)."""
+    m = k % 7
+    if m == 0:
+        return list(off)
+    if m == 1:
+        return tuple(off)
+    arr = np.array(off, dtype=float)
+    if m == 2:
+        return arr
+    if m == 3:
+        arr.setflags(write=False)
+        return arr
+    if m == 4:
+        big = np.zeros(6)
+        big[::2] = arr
+        return big[::2]
+    if m == 5 and np.array_equal(arr.astype(np.float32).astype(float), arr):
+        return arr.astype(np.float32)
+    if m == 6 and np.array_equal(np.rint(arr), arr):
+        return arr.astype(np.int64)
+    return arr
+
+
+def read_only_calls(cm, motl):
+    motl.get_coordinates()
+    motl.get_rotations()
+    motl.get_angles()
+    motl.get_unique_values("tomo_id")
+    str(motl)
+    cm.Motl.load(motl)
 
 
 def observe(case):
-    """Runs the call; returns (trace record for SymExpandTrace, error)."""
+    """Runs the call(s) of the case; returns ([(n, trace record for SymExpandTrace)], error)."""
     from cryocat import cryomotl as cm
     parts = case["parts"]
-    n = case["n"]
     cols = motlutil.empty_rows(len(parts))
     for k, p in enumerate(parts):
         cols["subtomo_id"][k] = p["sid"]
@@ -157,13 +208,39 @@ def observe(case):
         cols["geom2"][k], cols["geom5"][k] = 9.0, 99.0
         for f, v in inherit_values(p["tag"]).items():
             cols[f][k] = v
-    motl = cm.Motl(motlutil.vary_index(motlutil.df_from_cols(cols), case["id"]))
+    # the particle table: any row labels, integer id columns, any column order
+    tbl = motlutil.vary_columns(motlutil.vary_index(motlutil.df_from_cols(cols), case["id"]), case["id"] // 2)
+    motl = cm.Motl(motlutil.repeat_labels(tbl, case["id"] // 3))          # ... and repeated row labels
+    shift = shift_arg(case["off"], case["id"])
+    guard = argguard.Guard(xyz_shift=shift, particle_list=motl.df)       # the call returns a new list
+    out = []
+    first = None
+    for j, n in enumerate([case["n"]] + ([case["n2"]] if case.get("n2") else [])):
+        if j == 1 and case["id"] % 2 == 0:
+            _, err = core.call_guarded(read_only_calls, cm, motl)
+            if err is not None:
+                return out, "read-only calls between the two expansions: " + err
+        res, err = core.call_guarded(motl.split_in_asymmetric_subunits, sym_arg(n, (case["spelling"] + j) % 5), shift)
+        if err is not None:
+            return out, ("second call (same list, same offset object, n=%d): " % n if j else "") + err
+        tr, err = project_expansion(case, n, res.df)
+        if err is not None:
+            return out, err
+        frame = guard.changed()
+        if not frame and first is not None:
+            frame = first.changed()
+            frame = frame and "result of the first call changed by the second: " + frame
+        tr["frame"] = frame or ""
+        out.append((n, tr))
+        if first is None:
+            first = argguard.Guard(first_result=res.df)
+    return out, None
+
+
+def project_expansion(case, n, df):
+    """alpha: the returned table -> trace record (None, reason) when it cannot be projected."""
+    parts = case["parts"]
     off = np.array(case["off"], dtype=float)
-    res, err = core.call_guarded(motl.split_in_asymmetric_subunits, sym_arg(n, case["spelling"]),
-                                 list(case["off"]) if case["id"] % 2 else off)
-    if err is not None:
-        return None, err
-    df = res.df
     if sorted(map(str, df.columns)) != sorted(FIELDS) or len(df.columns) != 20:
         return None, "columns changed: %s" % list(df.columns)
     parent = {float(p["sid"]): p for p in parts}
@@ -211,14 +288,16 @@ def observe(case):
 def run_float(ctx, cases):
     traces, kept = [], []
     for case in cases:
-        tr, err = observe(case)
+        obs, err = observe(case)
         ctx.ran({k: v for k, v in case.items()})
-        sig = {"op": "split_in_asymmetric_subunits", "n": case["n"], "layer": "float", "divides360": 360 % case["n"] == 0}
+        for n, tr in obs:
+            tr["id"] = len(traces) + 1
+            traces.append(tr)
+            kept.append((case, n, {"op": "split_in_asymmetric_subunits", "n": n, "layer": "float", "divides360": 360 % n == 0}))
         if err is not None:
-            ctx.fail("call_raises", "n=%d (%r): %s" % (case["n"], sym_arg(case["n"], case["spelling"]), err), case, sig)
-            continue
-        traces.append(tr)
-        kept.append((case, sig))
+            n = case["n"] if not obs else case.get("n2", case["n"])
+            ctx.fail("call_raises", "n=%d (%r): %s" % (n, sym_arg(n, case["spelling"]), err), case,
+                     {"op": "split_in_asymmetric_subunits", "n": n, "layer": "float", "divides360": 360 % n == 0})
     if not traces:
         return
     # binding self-test: a corrupted copy of the first trace (one in-plane index off) must be rejected
@@ -240,11 +319,12 @@ def run_float(ctx, cases):
             len(verdicts), len(traces) + 1, res.stdout[-2000:]))
     if verdicts[len(traces) + 1]["ok"]:
         raise core.MachineryError("SymExpandTrace accepted a corrupted trace (binding self-test)")
-    for i, (case, sig) in enumerate(kept):
+    for i, (case, n, sig) in enumerate(kept):
         v = verdicts[i + 1]
         if not v["ok"]:
-            ctx.fail(v["clause"], "n=%d (%r), %d particles, offset %s: observed expansion rejected by SymExpandTrace" % (
-                case["n"], sym_arg(case["n"], case["spelling"]), len(case["parts"]), case["off"]), case, sig)
+            ctx.fail(v["clause"], "n=%d, %d particles, offset %s%s: observed expansion rejected by SymExpandTrace%s" % (
+                n, len(case["parts"]), case["off"], " (second call on the same list and offset object)" if n != case["n"] else "",
+                ": " + traces[i]["frame"] if traces[i].get("frame") else ""), case, sig)
 
 
 def replay(ctx, case):
@@ -270,7 +350,7 @@ def run(ctx):
     ]
     only = getattr(ctx, "only", None)
     if not only or "exact" in only:
-        cfgt = "SPECIFICATION Spec\nCONSTANTS\n Cases <- AllCases\n%s\nCONSTRAINT Emit\n" % "\n".join("INVARIANT " + i for i in INVS)
+        cfgt = "SPECIFICATION Spec\nCONSTANTS\n Cases <- AllCases\n%s\nPROPERTY C10_ArgumentsUntouched\nCONSTRAINT Emit\n" % "\n".join("INVARIANT " + i for i in INVS)
         res = ctx.tlc("MC_SymExpand", cfgt, name="exact", workers=1)
         recs = [r for r in res.tagged.get("EXP", []) if r["case"]["ps"]]
         if len(recs) < 1000:
